@@ -248,6 +248,8 @@ func dispatchConnection(conn net.Conn, sta *State) {
 	if err != nil {
 		user.CloseSession(ci.SessionId, "")
 		log.Error(err)
+		// do not leave the client waiting for a reply that will never come: it retries on a closed connection
+		conn.Close()
 		return
 	}
 
